@@ -1,0 +1,9 @@
+//go:build verif
+
+// Verification contracts for package json (comment-only; compiled only with -tags verif).
+// Read by /verif/cmd/gvc; see /verif/DESIGN.md for the contract language.
+
+package json
+
+// C20: no-panic sweep over the JSON importer adapter
+//@ sweep C20: (*JsonTreeImporter).GetElement (*JsonTreeImporter).GetElements (*JsonTreeImporter).GetKeyValue (*JsonTreeImporter).GetName (*JsonTreeImporter).GetTVValue
